@@ -56,4 +56,15 @@ PROPS = {
         "theorem_status": {"C04_evict_needs_master / C04_membership / C04_update_footprint / C04_recovery_removes_from_list_first": "full (oracle semantics)",
                            "(a),(b) complete iteration, prefix preservation, no-lagging-member": "refuted on the real code: KNOWN_FINDINGS.json C04-R1..R5 (re-observed by the monitor on every run)"},
     },
+    "C01": {
+        "corr": ["Corr/C01.vo"],
+        "harness": [{"pkg": APP, "test": "TestVerifC01"}],
+        "trusted": ["fake MySQL semantics (DESIGN App. C): read-only + stopped IO thread keep executed/received sets; CHANGE SOURCE purges the relay log; replication threads of the fakes fetch/apply everything available when read",
+                    "in-memory DCS incl. the manager lock; testing/synctest virtual time; force_switchover and external replication off; the semi-sync optimisation phase of planned switchovers is exercised under C19, planned switchovers here run with semi-sync off",
+                    "goroutine completion order of getNodePositions is taken from the observed call order (Par joins hand results over in any order in the model)"],
+        "assumptions": ["the reported GTID sets are well-formed (parser output)", "frozen members keep their sets (MySQL semantics) - checked on the fakes by the monitor at every SET read_only=0"],
+        "theorem_status": {"C01_lock_reconfirmed_before_promotion, C01_splitbrain_*, C01_promotion_needs_catch_up, C01_most_recent_contains_every_frozen_position": "full over oracle semantics",
+                           "ground-truth statement (frozen quorum at the instant of promotion on the servers)": "partial: decided by the monitor on the fake servers (no Coq world model of MySQL yet)",
+                           "literal 'not totally ordered => abort'": "the code aborts iff no maximum exists (C01_splitbrain_iff_no_maximum); with a maximum and incomparable lower elements it promotes safely - a gap between the property text and the code, see DESIGN.md F11"},
+    },
 }
